@@ -8,6 +8,9 @@ Streams
   tree   : abstract projects (harness/progen.py) x random surface spellings ->
            real FortranSourceFile; the observation must equal the canonical tree of
            the abstract project (property oracle; independent of the model).
+  ptype  : harness/c01_ptype.py; mask / restore / lits : harness/c01_mask.py;
+  attrs / attrq : harness/c01_attrs.py (attribute statements x declarations with several entities:
+           correspondence with FordModel/Attribs.lean, and the two-spellings oracle).
 """
 from __future__ import annotations
 
@@ -375,6 +378,7 @@ FINDINGS = [
     ("C01-positional-char-kind-literal", "char-kind-literal-positional", r"\.kind:"),
     ("C01-bind-before-result", "bind-before-result", r"\.bindC:"),
     ("C01-parameter-stmt-literal-placeholder", "parameter-stmt-literal", r"\.initial:"),
+    ("C01-parameter-stmt-relational", "parameter-stmt-relational", r"\.initial:"),
     ("C01-function-type-prefix-literal-crash", "function-prefix-literal", r"FORD failed on valid input: IndexError"),
 ]
 
@@ -394,6 +398,8 @@ def file_features(text):
         feats.add("bind-before-result")
     if re.search(r"^\s*parameter\s*\([^=\n]*=[^\n]*['\"]", low, re.M):
         feats.add("parameter-stmt-literal")
+    if re.search(r"^\s*parameter\s*\([^=\n]*=[^\n]*(==|/=|>=|<=)", low, re.M):
+        feats.add("parameter-stmt-relational")
     if re.search(r"^[^!\n]*['\"][^\n]*\bfunction\s+\w+\s*\(", low, re.M):
         feats.add("function-prefix-literal")
     return feats
@@ -506,18 +512,30 @@ def run(tier: str, seed: int, replay: str | None = None) -> int:
         lt = c01_mask.run_lits(ford, random.Random(seed * 717171 + 13), 600 if tier == "quick" else 15000, rep, d, distinct)
         n_dis += mk["disagree"] + rs["disagree"]
         n_fail += lt["oracle_fail"]
+        # ---------------- attrs / attrq streams (FordModel/Attribs.lean): declarations with several entities x attribute statements
+        from harness import c01_attrs
+        at = c01_attrs.run_attrs(drv, ford, random.Random(seed * 818181 + 17), 2500 if tier == "quick" else 40000, rep, d, distinct)
+        aq = c01_attrs.run_attrq(ford, random.Random(seed * 919191 + 19), 500 if tier == "quick" else 10000, rep, d, distinct)
+        n_dis += at["disagree"]
+        n_fail += aq["oracle_fail"]
     rep.coverage.update(
-        evaluations=len(cases) + n_files + pt["cases"] + pt["groups"] + mk["cases"] + rs["cases"] + lt["cases"],
+        evaluations=len(cases) + n_files + pt["cases"] + pt["groups"] + mk["cases"] + rs["cases"] + lt["cases"] + at["cases"]
+        + aq["spellings"],
         distinct_nontrivial=len(distinct),
         rule="struct: statement-kind sequences (well-formed nestings, 1-3 point mutations of them, junk), distinct by token "
              "sequence; tree: generated abstract projects x random spellings, one evaluation per source file, distinct by text; "
              "every case has at least one container; ptype: type-specification strings; mask: one-statement files (well-quoted, 1-2 point "
              "mutations, junk), restore: placeholder texts x captured-string lists, lits: generated modules of literal-dense declarations "
-             "(mask, restore and lits cases are distinct by their text / text+strings)",
+             "(mask, restore and lits cases are distinct by their text / text+strings); attrs: specification parts of 1-4 declaration "
+             "statements (1-3 entities, 0-3 attribute texts) and 0-6 attribute statements in a module / program / subroutine / function / "
+             "block data unit; attrq: abstract entity lists written in two spellings (shared declarations + attribute statements, one "
+             "declaration per entity), one evaluation per spelling (both distinct by text)",
         samples=samples,
         traces_validated_against_impl=len(cases) + pt["cases"] - pt["unmodelled"] + mk["cases"] - mk["unmodelled"]
-        + rs["cases"] - rs["unmodelled"],
+        + rs["cases"] - rs["unmodelled"] + at["cases"],
         ptype_stream=pt,
+        attrs_stream=at,
+        attrq_stream=aq,
         mask_stream=mk,
         restore_stream=rs,
         lits_stream=lt,
@@ -538,5 +556,10 @@ def run(tier: str, seed: int, replay: str | None = None) -> int:
         "modelled as a literal insertion (exercised by literals containing backslashes in the restore and lits streams); only the restoring "
         "site of line_to_variables is modelled (the sites for PARAMETER statements, bind(C) names and character kinds are observed by the oracle only)",
         "tree stream observes FortranSourceFile objects (parse + _cleanup), before Project.correlate",
+        "attribute bookkeeping is modelled at statement level (Attribs.lean): the model receives the attribute texts / entities of a "
+        "declaration and groups 1, 2 of ATTRIB_RE as the generator wrote them (which texts the regular expressions accept is tied by the "
+        "differential run only); attribute statements naming procedures, types or interfaces (first loop of process_attribs), bare "
+        "PUBLIC/PRIVATE statements, character literals inside bind(..) and the settings.warn report are outside the model; the variant "
+        "of the four repairable places (Attribs.Cfg) is decided by probing the real code once per run",
     ]
     return rep.finish(lean)
